@@ -243,12 +243,18 @@ def run(ctx):
     ok = ctx.lean(MODULES, THEOREMS, extra_targets=("drv_flags",))
     ctx.cov["trusted_base"] = [
         "Lean 4.33.0 kernel; axioms within {propext, Classical.choice, Quot.sound}",
-        "tools/extract_flags.py (AST scan of write_output_file / cfiles.append / ffiles.append sites and of the emitter order)",
-        "hand-written model Model/Flags.lean of WrapFlags, PromoteWrap, has_default_args flag assignment, driver gating",
+        "tools/extract_flags.py (AST scans: write_output_file / cfiles.append / ffiles.append sites, emitter order, wrap defaults, "
+        "every wrap.assign / wrap.clear / direct wrap.<lang> write of generate.py, loop guards of every emitter's wrap_namespace)",
+        "hand-written model Model/Flags.lean of WrapFlags, node construction (scope-chain lookup of the wrap options), every "
+        "clone-making step of GenFunctions, PromoteWrap and driver gating; validated on generated libraries only",
+        "tools/flagcorr.py step spy: takes which clones a step appended (count, tags) and two content facts computed from the "
+        "declaration's types as inputs; compares all flags with the model",
     ]
-    ctx.cov["rule"] = ("flag correspondence: every node of generated libraries after the real generate_functions; oracle: libraries x "
-                       "all valid library-level flag combinations (Fortran only with C) x per-declaration overrides x five distinct "
-                       "directories; non-trivial = the run wrote files of >= 2 kinds or used an override; distinct = (library, flags, override)")
+    ctx.cov["rule"] = ("flag correspondence: WrapFlags operation sequences; every node's flags at construction; every clone-making step "
+                       "observed in real runs (distinct requests); promotion of every real tree after generate_functions; oracle: libraries x "
+                       "all valid library-level flag combinations (Fortran only with C; also stated through --option) x per-declaration overrides "
+                       "(function, method, class, namespace, enumeration) x assignments of the output-directory options; non-trivial = the run "
+                       "wrote files of >= 2 kinds or used an override; distinct = (library, flags, override)")
     ctx.assumptions += ["'every emitter consults wrap.L for every declaration' is checked by the oracle on generated libraries, not proved"]
 
     work = common.scratch()
